@@ -9,6 +9,23 @@ namespace {
 constexpr std::int64_t kCap = 4096;     // --max-store-bytes
 constexpr std::int64_t kMinTtl = 10, kMaxTtl = 600;
 
+// How a number is spelt in a request header. 0: plain decimal. 1: '-' followed by 2^64 - v (a huge negative number that a wrapping
+// parser reads as v). 2: v + 2^64 in decimal (reads as v modulo 2^64). 3: "+v". 4: " v". 5: hexadecimal. Spellings 1 and 2 denote
+// integers outside every window and cap; 3..5 are merely unusual and are not judged.
+std::string spell_number(std::int64_t v, std::int64_t spelling) {
+    auto dec128 = [](unsigned __int128 x) { std::string d; if (x == 0) d = "0"; while (x > 0) { d.insert(d.begin(), static_cast<char>('0' + static_cast<int>(x % 10))); x /= 10; } return d; };
+    const unsigned __int128 two64 = static_cast<unsigned __int128>(1) << 64;
+    const unsigned __int128 uv = static_cast<unsigned __int128>(static_cast<std::uint64_t>(v));
+    switch (spelling) {
+        case 1: return "-" + dec128(two64 - uv);
+        case 2: return dec128(two64 + uv);
+        case 3: return "+" + std::to_string(v);
+        case 4: return " " + std::to_string(v);
+        case 5: { char b[32]; snprintf(b, sizeof b, "0x%llx", static_cast<unsigned long long>(v)); return b; }
+        default: return std::to_string(v);
+    }
+}
+
 Plan gen_c28(sk::Rng& r, Tier) {
     Plan p;
     gen_w4_knobs(p, r);
@@ -24,7 +41,9 @@ Plan gen_c28(sk::Rng& r, Tier) {
             const std::int64_t ttl = flood ? 60 : r.pick<std::int64_t>({0, 1, kMinTtl - 1, kMinTtl, 60, kMaxTtl, kMaxTtl + 1, 1 << 30});
             // third element = proof-of-work: 0 valid, 1 invalid, 2 missing, 3 one zero bit short
             op.a = {size, ttl, flood ? 0 : r.pick<std::int64_t>({0, 0, 1, 2, 3}), static_cast<std::int64_t>(r.below(2)), static_cast<std::int64_t>(r.below(flood ? 1 : 2)),
-                    static_cast<std::int64_t>(size > kCap ? r.below(2) : 0), static_cast<std::int64_t>(r.below(3))};
+                    static_cast<std::int64_t>(size > kCap ? r.below(2) : 0), static_cast<std::int64_t>(r.below(3)),
+                    // spelling of the TTL and of the declared length (mostly plain)
+                    flood || !r.chance(1, 5) ? 0 : r.range(1, 5), flood || !r.chance(1, 5) ? 0 : r.range(1, 5)};
         } else if (c < (flood ? 85 : 65)) { op.k = "fetch"; op.a = {static_cast<std::int64_t>(r.below(2)), static_cast<std::int64_t>(r.below(flood ? 1 : 2))}; }
         else { op.k = "wait"; op.a = {r.pick<std::int64_t>({100, 1000, 5000, 29000, 31000})}; }
         p.ops.push_back(op);
@@ -72,15 +91,19 @@ void exec_c28(const Plan& p, Ctx& ctx) {
             std::vector<std::uint8_t> body(pl.begin(), pl.end());
             const std::string path = op.at(6) == 0 ? "" : (op.at(6) == 1 ? "note.txt" : "some/dir/blob.bin");
             const std::string sanitized = op.at(6) == 0 ? "" : (op.at(6) == 1 ? "note.txt" : "blob.bin");
-            std::vector<std::pair<std::string, std::string>> f{{"COMMAND", "STORE"}, {"TTL", std::to_string(ttl)}};
+            std::vector<std::pair<std::string, std::string>> f{{"COMMAND", "STORE"}, {"TTL", spell_number(ttl, op.at(7))}};
             if (!path.empty()) f.push_back({"PATH", path});
             std::uint64_t nonce = 0;
             if (pow_kind == 3) { for (nonce = 1; leading_zero_bits(store_pow_digest(body, sanitized, nonce)) != 5; ++nonce) {} f.push_back({"STORE-POW", std::to_string(nonce)}); ctx.boundary("store_pow_one_bit_short"); }
             else if (pow_kind != 2) { nonce = ref_solve_store_pow(body, sanitized, 6, pow_kind == 0); f.push_back({"STORE-POW", std::to_string(nonce)}); }
             if (op.at(3)) f.push_back({"TOKEN", "forged-" + std::to_string(uniq) + "-" + std::to_string(sk::now_ns())});
-            f.push_back({"PAYLOAD-LENGTH", std::to_string(declared)});
-            const bool over_cap = declared > kCap;
-            const bool ttl_ok = ttl >= kMinTtl && ttl <= kMaxTtl;
+            f.push_back({"PAYLOAD-LENGTH", spell_number(declared, op.at(8))});
+            // what the header texts denote as integers: the wrapped spellings (1, 2) are far outside every cap and window
+            const std::int64_t ttl_spelling = op.at(7), len_spelling = op.at(8);
+            const bool unusual_spelling = ttl_spelling >= 3 || len_spelling >= 3;   // "+v", " v", hexadecimal: tolerated or refused, not judged
+            const bool over_cap = declared > kCap || len_spelling == 1 || len_spelling == 2;
+            const bool ttl_ok = ttl >= kMinTtl && ttl <= kMaxTtl && ttl_spelling != 1 && ttl_spelling != 2;
+            if (ttl_spelling == 1 || ttl_spelling == 2 || len_spelling == 1 || len_spelling == 2) ctx.boundary("header_number_that_wraps_modulo_2_64");
             const bool pow_ok = pow_kind == 0;
             if (over_cap) ctx.boundary("declared_length_above_cap");
             if (!ttl_ok) ctx.boundary("ttl_outside_window");
@@ -91,15 +114,20 @@ void exec_c28(const Plan& p, Ctx& ctx) {
             clients[src].call([&] { rep = ctl_exchange(host, d.control_port, ctl_headers(f), body, withhold || (over_cap && declared > 3 * kCap), 15000, 1); });
             const std::int64_t t1 = sk::now_ns();
             const std::string code = rep.field("CODE");
+            if (unusual_spelling) {
+                ctx.probe(rep.ok ? "unusual_number_spelling_accepted" : "unusual_number_spelling_refused");
+                if (rep.ok) { stores[src].push_back({t0, t1}); window_check(stores[src], 6, "C28.store_rate_limit", "STOREs", src); if (manifest.empty()) manifest = rep.field("MANIFEST"); }
+                continue;
+            }
             if (over_cap) {
-                if (rep.ok) ctx.violate("C28.oversized_store_accepted", fmt("STORE declaring %lld bytes (cap %lld) was accepted", (long long)declared, (long long)kCap));
+                if (rep.ok) ctx.violate("C28.oversized_store_accepted", fmt("STORE declaring PAYLOAD-LENGTH:%s (cap %lld) was accepted", spell_number(declared, len_spelling).c_str(), (long long)kCap));
                 else if (!rep.got_status) ctx.violate("C28.oversized_store_not_refused_from_headers", fmt("STORE declaring %lld bytes (cap %lld) with the body withheld got no refusal within 15 s: the server waits for the body", (long long)declared, (long long)kCap));
                 else if (code.find("TOO_LARGE") == std::string::npos) ctx.probe("oversized_refused_with_other_code");
                 continue;
             }
             if (rep.ok) {
                 ctx.probe("store_accepted");
-                if (!ttl_ok) ctx.violate("C28.ttl_outside_window_accepted", fmt("STORE with TTL %lld s accepted; window is [%lld,%lld]", (long long)ttl, (long long)kMinTtl, (long long)kMaxTtl));
+                if (!ttl_ok) ctx.violate("C28.ttl_outside_window_accepted", fmt("STORE with TTL:%s accepted; window is [%lld,%lld]", spell_number(ttl, ttl_spelling).c_str(), (long long)kMinTtl, (long long)kMaxTtl));
                 if (!pow_ok) ctx.violate("C28.invalid_pow_accepted", fmt("STORE with %s proof-of-work accepted (difficulty 6)", pow_kind == 2 ? "missing" : "invalid"));
                 if (pow_ok && !ref_store_pow_ok(body, sanitized, nonce, 6)) ctx.violate("C28.reference_pow_mismatch", "harness reference disagrees with its own solver");
                 stores[src].push_back({t0, t1});
